@@ -249,7 +249,7 @@ def session_oracle(case, line):
     grant = [0] * n
     sgrant = [0] * n
     G = [t[3] + t[4] + t[5] + t[6] for t in toks]
-    maxg = 0
+    maxg = toks[0][10]       # the enabling tick (one second's worth) happened before the measurement
     for k in range(1, n):
         t, p = toks[k], toks[k - 1]
         pay[k] = max(0, t[1] - 13 * (t[2] + 1))
